@@ -123,3 +123,22 @@ M("C01", "unary_union_second_only", "odc/geo/geom.py", "    for g in geoms[1:]:\
 M("C01", "result_untagged", "odc/geo/geom.py", "        if isinstance(result, base.BaseGeometry):\n            return Geometry(result, first.crs)", "        if isinstance(result, base.BaseGeometry):\n            return Geometry(result, None)", "binary geometry results lose their CRS")
 M("C01", "crs_ne_by_identity", "odc/geo/crs.py", "    def __ne__(self, other) -> bool:\n        return not self == other", "    def __ne__(self, other) -> bool:\n        return self is not other and str(self) != str(other)", "__ne__ compares spellings: equal CRSs in different spellings rejected")
 M("C01", "crs_eq_epsg_shortcut_any", "odc/geo/crs.py", "        if self._epsg and other._epsg:\n            return self._epsg == other._epsg", "        if self._epsg and other._epsg:\n            return self._epsg // 1000 == other._epsg // 1000", "EPSG codes compared too coarsely (4326 == 4283)")
+
+# ----------------------------------------------------------------------------- C19
+M("C19", "crs_cache_lru16", "odc/geo/crs.py", "_crs_cache: Dict[Hashable, Tuple[_CRS, str, Optional[int]]] = {}", "_crs_cache: Dict[Hashable, Tuple[_CRS, str, Optional[int]]] = cachetools.LRUCache(16)", "bounded CRS cache: pyproj objects are evicted, ids recycled, transformer cache keyed by id returns the wrong transformer")
+M("C19", "transformer_key_no_always_xy", "odc/geo/crs.py", "    return (id(from_crs), id(to_crs), always_xy)", "    return (id(from_crs), id(to_crs))", "transformer cache ignores always_xy")
+M("C19", "transformer_key_one_sided", "odc/geo/crs.py", "    return (id(from_crs), id(to_crs), always_xy)", "    return (id(from_crs), always_xy)", "transformer cache ignores the target CRS")
+M("C19", "geobox_token_no_crs", "odc/geo/geobox.py", "            \"odc.geo.geobox.GeoBox\",\n            str(self.crs),\n", "            \"odc.geo.geobox.GeoBox\",\n", "GeoBox token without CRS")
+M("C19", "geobox_token_no_translation", "odc/geo/geobox.py", "            *self._affine[:6],\n        )\n\n\ndef gbox_boundary", "            *self._affine[:2], *self._affine[3:5],\n        )\n\n\ndef gbox_boundary", "GeoBox token without translation terms")
+M("C19", "geobox_hash_no_affine", "odc/geo/geobox.py", "        return hash((*self._shape, self._crs, self._affine))", "        return hash((*self._shape, self._crs))", "GeoBox hash without the affine (coherent: may SURVIVE)")
+M("C19", "geobox_eq_ignores_crs", "odc/geo/geobox.py", "            and self._affine == other._affine\n            and self._crs == other._crs\n        )\n\n    def __rmul__", "            and self._affine == other._affine\n        )\n\n    def __rmul__", "GeoBox equality ignores CRS (hash does not)")
+M("C19", "xy_eq_asymmetric", "odc/geo/types.py", "        if not isinstance(other, XY):\n            return False\n        return self._xy == other._xy", "        if type(other) is not type(self) and type(self) is XY:\n            return False\n        if not isinstance(other, XY):\n            return False\n        return self._xy == other._xy", "plain XY refuses subclasses but not the other way round (asymmetric)")
+M("C19", "vtiles_token_shapes_only", "odc/geo/roi.py", "            \"odc.geo.roi.VariableSizedTiles\",\n            *self._offsets,", "            \"odc.geo.roi.VariableSizedTiles\",\n            *[len(o) for o in self._offsets], *[int(o[-1]) for o in self._offsets],", "variable tiles token from counts and totals only")
+M("C19", "tiles_token_no_base", "odc/geo/roi.py", "            \"odc.geo.roi.Tiles\",\n            *self._base_shape,", "            \"odc.geo.roi.Tiles\",\n            *self._shape,", "D2 re-introduced")
+M("C19", "gcp_eq_identity", "odc/geo/gcp.py", "            and self._mapping == __o._mapping\n", "            and self._mapping is __o._mapping\n", "D14 re-introduced")
+M("C19", "bbox_eq_ignores_crs", "odc/geo/geom.py", "            return self._crs == other._crs and self._box == other._box", "            return self._box == other._box", "BoundingBox equality ignores CRS")
+M("C19", "crs_pickle_epsg_only", "odc/geo/crs.py", "        return {\"crs_str\": self._str}", "        return {\"crs_str\": self._str if self._epsg else \"EPSG:4326\"}", "authority-less CRS pickles as EPSG:4326")
+M("C19", "gbtiles_eq_ignores_gbox", "odc/geo/geobox.py", "        return self._tiles == __value._tiles and self._gbox == __value._gbox", "        return self._tiles == __value._tiles", "GeoboxTiles equality ignores the geobox (tokens differ, unhashable: coherent, may SURVIVE)")
+M("C19", "gridspec_eq_ignores_bins", "odc/geo/gridspec.py", "            self._shape == other._shape\n            and self._ybin == other._ybin\n", "            self._shape == other._shape\n", "GridSpec equality ignores y bins (coherent: may SURVIVE)")
+M("C19", "geom_getstate_drops_crs", "odc/geo/geom.py", "        return {\"geom\": self.json, \"crs\": self.crs}", "        return {\"geom\": self.json, \"crs\": None}", "Geometry pickle loses the CRS")
+M("C19", "crs_eq_not_transitive", "odc/geo/crs.py", "        if self._str == other._str:\n            return True\n\n        return self._crs == other._crs", "        if self._str == other._str:\n            return True\n\n        return self._str.startswith(\"EPSG\") and self._crs == other._crs", "CRS equality depends on the spelling of the left operand (asymmetric)")
